@@ -225,7 +225,10 @@ def hub_tree(root):
             rel = os.path.relpath(p, root)
             if rel.startswith(".copia/") or rel == ".copia":
                 continue
-            out[rel] = open(p, "rb").read()
+            try:
+                out[rel] = open(p, "rb").read()
+            except FileNotFoundError:
+                pass        # a running server renamed / removed it between the directory walk and the open (ungated runs): not there any more
     return out
 
 
@@ -285,6 +288,13 @@ def valid_session(rng, tree, n):
             parts.append((frame(req_delete(p, exp)), f"delete {p}"))
         elif r == 10:
             parts.append((frame(req_get("/abs/" + p)), "get absolute"))
+            if rng.coin(1, 2):
+                # error replies for long paths whose multi-byte characters straddle every small offset (a reply that clips or
+                # echoes the path must not split a character): missing file, refused path
+                pad = "x" * rng.below(4)
+                longp = pad + rng.pick(["é", "中", "𝄞"]) * rng.range(22, 60)
+                parts.append((frame(req_get(longp)), "get long non-ascii (missing)"))
+                parts.append((frame(req_delete("../" + longp, None)), "delete long non-ascii (refused)"))
         else:
             parts.append((frame(req_hello(rng.below(5))), "hello again"))
     if rng.coin(2, 3):
@@ -411,7 +421,7 @@ def run_c12(pid, tier, seed, rundir, model_run, res, count):
 
 
 # ---------------------------------------------------------------- C11
-COMP11 = ["..", ".", "", "a", "b", "a..b", "..a", "c" * 300, "x y", "..."]
+COMP11 = ["..", ".", "", "a", "b", "a..b", "..a", "c" * 300, "x y", "...", ".copia", ".copia", "commit.lock", ".copiax"]
 
 
 def gen_path(rng):
@@ -475,6 +485,13 @@ def run_c11(pid, tier, seed, rundir, model_run, res, count):
         baseline = {a for _, args in trace_paths(tf) for a in args}
     for i in range(n):
         paths = [gen_path(rng)]          # one path per session: two generated paths may clash as file/directory (outside the domain)
+        p0 = paths[0]
+        if (p0.startswith("/") or ".." in p0.split("/")) and ".copia" not in p0 and rng.coin(1, 2):
+            # … except after a path that MUST be refused (nothing is created for it): the same refused directory again with
+            # another leaf, back to back on the same connection — whatever the server remembered from the first refusal
+            # (a cached directory, a half-built path) must not let the second one through
+            d_ = p0.rsplit("/", 1)[0] + "/" if "/" in p0.rstrip("/") else ""
+            paths.append((d_ or "../") + rng.pick(["sib", "secret.txt", "b"]))
         with Sandbox("C11") as sb:
             root = sb.path("outer", "hub")
             os.makedirs(os.path.join(root, "zz"))
@@ -520,10 +537,11 @@ def run_c11(pid, tier, seed, rundir, model_run, res, count):
                 ops.append(f"safejoin {hexs(p)}")
                 impl.append("refused" if refused_real else ("MIXED" if any_refused else "ok"))
                 reps.append(dict(rep, path=p, chunk=chunk))
-                must_refuse = p.startswith("/") or ".." in p.split("/")
+                first_name = next((c for c in p.split("/") if c not in ("", ".")), None)
+                must_refuse = p.startswith("/") or ".." in p.split("/") or first_name == ".copia"
                 count("path/" + ("must-refuse" if must_refuse else "must-accept"))
                 if must_refuse and not refused_real:
-                    res["violations"].append(("dotdot-or-absolute-not-refused", f"path {p!r} (absolute or with a '..' component) was not refused by all three request kinds", dict(rep, path=p, chunk=chunk)))
+                    res["violations"].append(("dotdot-or-absolute-not-refused", f"path {p!r} (absolute, with a '..' component, or inside the control directory) was not refused by all three request kinds", dict(rep, path=p, chunk=chunk)))
                 if len(chunk) == 4 and not chunk[3].startswith("content:6:"):
                     res["violations"].append(("connection-unusable-after-request", f"after the requests for {p!r} a plain Get zz/keep was answered {chunk[3]}", dict(rep, path=p, chunk=chunk)))
                 if len(chunk) < 4 and rc not in (0,):
